@@ -265,6 +265,10 @@ type VerifGenState struct {
 	RetireCIDs    [][]byte
 	HasInitial    bool
 	InitialClient []byte
+	// NextRetireTime() of the generator, if the tree under test has that accessor (it came with the
+	// repair of the lazily removed retired IDs); HasNextRetire false otherwise
+	HasNextRetire bool
+	NextRetire    int64
 }
 
 type VerifGen struct {
@@ -461,6 +465,12 @@ func connidsVerifGenStateOf(g *connIDGenerator, base int64) VerifGenState {
 	if g.initialClientDestConnID != nil {
 		s.HasInitial = true
 		s.InitialClient = append([]byte{}, g.initialClientDestConnID.Bytes()...)
+	}
+	if a, ok := any(g).(interface{ NextRetireTime() monotime.Time }); ok {
+		s.HasNextRetire = true
+		if t := a.NextRetireTime(); t != 0 {
+			s.NextRetire = int64(t) - base
+		}
 	}
 	return s
 }
